@@ -251,3 +251,47 @@ def run_name_first(prog, rep):
         probs.append('only %d abstract lookup paths' % npaths)
     rule.check(not probs, 'BlockHDF5::findEntityGroup', rep.where(f), f.label(), 'the identity string is probed as a link name on every lookup path (%d paths)' % npaths, '; '.join(sorted(set(probs))[:2]))
     return rule
+
+
+def run_attr_search(prog, rep):
+    """attribute searches (entity by id, group member by name) match by exact string equality over all children"""
+    rule = rep.rule('R-ATTRSEARCH', 'findGroupByAttribute / findDataByAttribute accept a child iff its attribute equals the value exactly (operator==), visiting every child', floor=2)
+    sem = Sem(prog)
+    for q in ('nix::hdf5::H5Group::findGroupByAttribute', 'nix::hdf5::H5Group::findDataByAttribute'):
+        f = prog.fn(q)
+        val = ('v', f.params[1]['lid'], f.params[1]['name'])
+        probs = []
+        # the statement(s) that accept a child: assignment to the result / push_back of a candidate, inside the loop
+        loops = [n for n in f.walk() if n.k == 'for']
+        if not loops:
+            probs.append('no loop over the children')
+        else:
+            lp = loops[0]
+            cond = term(unwrap(lp.c[1])) if lp.c[1] is not None else None
+            if not (cond and cond[0] == 'b' and cond[1] == '<' and 'objectCount' in repr(cond[3])):
+                probs.append('the loop does not visit all objectCount() children')
+            accepts = [n for n in lp.walk() if (n.k == 'assign' or (n.k == 'call' and (n.get('op') == '=' or (n.callee or {}).get('name') in ('push_back', 'emplace_back')))) and n.id > lp.id]
+            accepts = [a for a in accepts if any(x.k == 'ref' and x.decl.get('kind') == 'local' and ('optional' in (x.t or '') or 'vector' in (x.t or '')) for x in (a.c[0].walk() if a.c else []))]
+            ok_any = False
+            for a in accepts:
+                facts = sem.facts_at(f, a.id)
+                exact = [t for (t, pol) in facts if pol and isinstance(t, tuple) and len(t) == 4 and t[0] in ('b', 'op') and t[1] == '==' and val in (t[2], t[3])]
+                other = [t for (t, pol) in facts if pol and isinstance(t, tuple) and t[0] in ('c', 'm') and val in t and 'has' not in str(t[1])]
+                if exact:
+                    ok_any = True
+                elif other:
+                    probs.append('a child is accepted when %s(...) holds instead of attribute == value: names/ids that differ only in case (or match a pattern) resolve to the wrong child' % str(other[0][1]).split('::')[-1])
+            if not ok_any and not probs:
+                # predicate form: std::find_if(candidates, [value](child) { ...; return attr_value == value; })
+                for lam in [n for n in f.walk() if n.k == 'lambda']:
+                    for r in [x for x in lam.walk() if x.k == 'return' and x.c and x.c[0] is not None]:
+                        rt = term(unwrap(r.c[0]))
+                        named = [y for y in r.c[0].walk() if y.k == 'ref' and y.decl.get('name') == f.params[1]['name']]
+                        if isinstance(rt, tuple) and len(rt) == 4 and rt[1] == '==' and named:
+                            ok_any = True
+                        elif named:
+                            probs.append('the predicate decides with %s instead of attribute == value' % r.c[0].src(40))
+            if not ok_any and not probs:
+                probs.append('no acceptance under attribute == value found')
+        rule.check(not probs, q.split('::')[-1], rep.where(f), f.label(), 'accepted iff attribute value == requested value', '; '.join(sorted(set(probs))[:2]))
+    return rule
